@@ -62,7 +62,7 @@ func (t *gotr) fail(n ast.Node, why string) {
 
 var gtTypes = map[string]string{
 	"int": "Int", "uint": "Nat", "bool": "Bool", "error": "Option GoErr", "*big.Int": "Int", "Op": "GOp",
-	"Program": "List GOp", "*Program": "List GOp", "Chain": "List Int", "[]*big.Int": "List Int", "[]int": "List Int", "[]Op": "List GOp", "[][]Op": "List (List GOp)",
+	"Program": "List GOp", "*Program": "List GOp", "Chain": "List Int", "[]*big.Int": "List Int", "[]int": "List Int", "[]Op": "List GOp", "[][]Op": "List (List GOp)", "map[uint]uint": "(Nat → Nat)",
 }
 
 var gtElem = map[string]string{"Program": "Op", "*Program": "Op", "Chain": "*big.Int", "[]*big.Int": "*big.Int", "[]int": "int", "[]Op": "Op", "[][]Op": "[]Op"}
@@ -75,7 +75,7 @@ var gtBigint = map[string]struct {
 	"One": {nil, "*big.Int"}, "Zero": {nil, "*big.Int"}, "Clone": {[]string{"*big.Int"}, "*big.Int"},
 	"Equal": {[]string{"*big.Int", "*big.Int"}, "bool"}, "EqualInt64": {[]string{"*big.Int", "int"}, "bool"},
 	"IsZero": {[]string{"*big.Int"}, "bool"}, "IsNonZero": {[]string{"*big.Int"}, "bool"},
-	"Pow2": {[]string{"uint"}, "*big.Int"},
+	"Pow2": {[]string{"uint"}, "*big.Int"}, "Ones": {[]string{"uint"}, "*big.Int"},
 }
 
 // math/big value-producing methods (the receiver's old value is irrelevant) and observers
@@ -194,6 +194,9 @@ func (t *gotr) expr(e ast.Expr) (string, string) {
 	case *ast.IndexExpr:
 		a, aty := t.expr(v.X)
 		i, ity := t.expr(v.Index)
+		if aty == "map[uint]uint" && ity == "uint" {
+			return "(" + a + " " + i + ")", "uint" // a missing key reads as zero
+		}
 		if el, ok := gtElem[aty]; ok && ity == "int" {
 			return "(← idx " + a + " " + i + ")", el
 		}
@@ -256,6 +259,9 @@ func (t *gotr) expr(e ast.Expr) (string, string) {
 			if xt == yt && (xt == "int" || (xt == "uint" && v.Op == token.ADD)) {
 				return "(" + x + " " + v.Op.String() + " " + y + ")", xt
 			}
+			if xt == "uint" && yt == "int" && isLit(v.Y) && v.Op == token.ADD {
+				return "(" + x + " + " + y + ")", "uint"
+			}
 		}
 	case *ast.CompositeLit:
 		ty := tyOf(t.fset, v.Type)
@@ -265,6 +271,9 @@ func (t *gotr) expr(e ast.Expr) (string, string) {
 			s, ety := t.expr(el)
 			elts = append(elts, s)
 			etys = append(etys, ety)
+		}
+		if ty == "map[uint]uint" && len(elts) == 0 {
+			return "(fun (_ : Nat) => (0 : Nat))", ty
 		}
 		if ty == "Op" && len(elts) == 0 {
 			return "(GOp.mk 0 0)", "Op"
@@ -319,6 +328,17 @@ func (t *gotr) call(v *ast.CallExpr) (string, string) {
 	case *ast.Ident:
 		switch f.Name {
 		case "uint":
+			if len(v.Args) == 1 {
+				if c, ok := v.Args[0].(*ast.CallExpr); ok && len(c.Args) == 0 {
+					if sel, ok := c.Fun.(*ast.SelectorExpr); ok && sel.Sel.Name == "Uint64" {
+						x, xt := t.expr(sel.X)
+						if xt == "*big.Int" {
+							// Uint64 of a value outside [0, 2^64) is undefined: refused (the code checks IsUint64 first)
+							return "(← goUint64 " + x + ")", "uint"
+						}
+					}
+				}
+			}
 			if len(v.Args) == 1 && isLit(v.Args[0]) {
 				return Src(t.fset, v.Args[0]), "uint"
 			}
@@ -420,6 +440,12 @@ func (t *gotr) call(v *ast.CallExpr) (string, string) {
 			a := t.args(v, []string{"*big.Int", "[]*big.Int"})
 			return "(bigintsContainsSorted " + strings.Join(a, " ") + ")", "bool"
 		}
+		if x, ok := f.X.(*ast.Ident); ok && x.Name == "addchain" {
+			if g, ok := t.funcs[f.Sel.Name]; ok && !g.ptr && g.recv == "" {
+				a := t.args(v, g.params)
+				return "(← " + strings.TrimSpace(g.lean+" "+strings.Join(a, " ")) + ")", resultType(g)
+			}
+		}
 		if x, ok := f.X.(*ast.Ident); ok && x.Name == "bigints" {
 			if g, ok := t.funcs["bigints."+f.Sel.Name]; ok {
 				a := t.args(v, g.params)
@@ -462,6 +488,9 @@ func (t *gotr) call(v *ast.CallExpr) (string, string) {
 		}
 		// method of a translated type on a value
 		recv, rty := t.expr(f.X)
+		if rty == "*big.Int" && f.Sel.Name == "IsUint64" && len(v.Args) == 0 {
+			return "(bIsUint64 " + recv + ")", "bool"
+		}
 		if rty == "*big.Int" && f.Sel.Name == "Sign" && len(v.Args) == 0 {
 			return "(bSign " + recv + ")", "int"
 		}
@@ -675,6 +704,16 @@ func (t *gotr) stmt(s ast.Stmt, ind string) string {
 						return ind + id.Name + " := " + id.Name + op + e + "\n"
 					}
 				}
+			}
+		}
+		// a, b := bigint.MinMax(x, y)
+		if v.Tok == token.DEFINE && len(v.Lhs) == 2 && len(v.Rhs) == 1 {
+			if c, ok := v.Rhs[0].(*ast.CallExpr); ok && Src(t.fset, c.Fun) == "bigint.MinMax" && len(c.Args) == 2 {
+				a := t.args(c, []string{"*big.Int", "*big.Int"})
+				n1, n2 := v.Lhs[0].(*ast.Ident).Name, v.Lhs[1].(*ast.Ident).Name
+				t.define(s, n1, "*big.Int")
+				t.define(s, n2, "*big.Int")
+				return ind + "let (" + n1 + ", " + n2 + ") := AC.Gen.Bigint.minMax " + strings.Join(a, " ") + "\n"
 			}
 		}
 		// a, b := x, y (every right-hand side is evaluated before any name is bound)
@@ -949,6 +988,7 @@ func (t *gotr) loop(s ast.Stmt, rest []ast.Stmt, ind string, tail string) string
 	converge := false
 	condS := ""
 	pre := ""
+	mapPost, mapVar := "", ""
 	t.push()
 	switch v := s.(type) {
 	case *ast.RangeStmt:
@@ -1030,6 +1070,24 @@ func (t *gotr) loop(s ast.Stmt, rest []ast.Stmt, ind string, tail string) string
 					t.fail(s, "loop after a converging loop")
 				}
 			}
+		case v.Init == nil && cond != nil && cond.Op == token.LSS && post != nil && post.Tok == token.INC && Src(t.fset, post.X) == Src(t.fset, cond.X) && isMapIndex(cond.X):
+			// for ; m[k] < b; m[k]++ { .. }: k and b are not assigned in the body; runs b - m[k] times
+			// (none when m[k] >= b), m[k] incremented after every pass
+			ix := cond.X.(*ast.IndexExpr)
+			mname := Src(t.fset, ix.X)
+			kx, kty := t.expr(ix.Index)
+			bx, bty := t.expr(cond.Y)
+			if mty, _ := t.lookup(mname); mty != "map[uint]uint" || kty != "uint" || bty != "uint" {
+				t.fail(s, "map counting loop")
+			}
+			for _, as := range t.assigned(body) {
+				if mentions(cond.Y, as) || mentions(ix.Index, as) || as == mname {
+					t.fail(s, "bound, key or map of a map counting loop is assigned in its body")
+				}
+			}
+			callArg = "(" + bx + " - (" + mname + " " + kx + "))"
+			mapPost = mname + " := fun (x : Nat) => if x == " + kx + " then (" + mname + " " + kx + ") + 1 else " + mname + " x"
+			mapVar = mname
 		case v.Init == nil && v.Post == nil && v.Cond != nil:
 			// for C { .. } with C a conjunction of `len(v) > 0`: run with fuel Σ len(v) and the
 			// condition re-checked; running out of fuel with C still true yields `goDiverge`
@@ -1132,6 +1190,19 @@ func (t *gotr) loop(s ast.Stmt, rest []ast.Stmt, ind string, tail string) string
 			assigned = append(assigned, a)
 		}
 	}
+	if mapVar != "" {
+		// the loop header itself assigns the map: keep the declaration order of t.order
+		set := map[string]bool{mapVar: true}
+		for _, a := range assigned {
+			set[a] = true
+		}
+		assigned = assigned[:0]
+		for _, o := range t.order {
+			if set[o] {
+				assigned = append(assigned, o)
+			}
+		}
+	}
 	// result type
 	rts := []string{}
 	if outer {
@@ -1220,7 +1291,11 @@ func (t *gotr) loop(s ast.Stmt, rest []ast.Stmt, ind string, tail string) string
 	}
 	recCall += " " + strings.Join(vars, " ")
 	t.recCalls = append(t.recCalls, recCall)
-	bodyS := t.block(body, bind, recCall)
+	tailS := recCall
+	if mapPost != "" {
+		tailS = mapPost + "\n" + bind + recCall
+	}
+	bodyS := t.block(body, bind, tailS)
 	t.recCalls = t.recCalls[:len(t.recCalls)-1]
 	t.innerRet = saveInner
 	t.depth--
@@ -1303,6 +1378,15 @@ func (t *gotr) loop(s ast.Stmt, rest []ast.Stmt, ind string, tail string) string
 }
 
 func mentionsCallWithPtr(e ast.Expr) bool { return false }
+
+func isMapIndex(e ast.Expr) bool {
+	ix, ok := e.(*ast.IndexExpr)
+	if !ok {
+		return false
+	}
+	_, ok = ix.X.(*ast.Ident)
+	return ok
+}
 
 func (t *gotr) letKw(name string) string {
 	if t.mut[name] {
